@@ -1738,6 +1738,8 @@ def check_f0_atoms(ctx, case):
         if entry is None:
             ctx.evaluated(1, 'f0.no_entry_rejected')
             ctx.count('f0.atoms_without_entry')
+            if exc is not None:
+                got, exc = _try(atom.xray.f0, _qgrid()[0])      # asked again after the refusal: still no borrowed values
             if exc is None and got is not None and np.isfinite(np.asarray(got, dtype=float)).any():
                 bud.violation('%s has no coefficient entry but f0 returns %r (borrowed from another entry?)'
                               % (atom, got), kind='f0.borrowed', atom=list(key))
